@@ -42,6 +42,22 @@ def _materialise(folder: Path, disk):
 
 
 def replay_save(reg, key, witness):
+    if isinstance(witness, dict) and "cut" in witness:
+        # crash-prefix obligation of a FIRST save: the real save is interrupted in that file (cut in the middle and, for
+        # the table, after each of its first lines) and the real restore is run on what is left
+        from runtime import scopes_ckpt
+        eff = {"calibration_params.json": "json", "scheduler_pickled.pickle": "sched", "loss_function_pickled.pickle": "loss",
+               "calibration_results.csv": "csv", "series_samp.h5": "h5"}.get(witness["cut"])
+        if eff is None:
+            return None
+        for cut in ([None] + (list(range(7)) if eff == "csv" else [])):
+            case = {"backend": "json", "effect": eff, "mode": "truncate", "first": True}
+            if cut is not None:
+                case["cut_lines"] = cut
+            msg = scopes_ckpt._c06_check(reg, case)  # noqa: SLF001
+            if msg and "did not fire" not in msg:
+                return msg
+        return None
     c = reg["contracts"][key]
     func, _ = rt.resolve(key)
     kw = {}
